@@ -91,6 +91,10 @@ partial def parseNodes (top : Bool) (cs : List Char) (acc : List Tmpl) : Option 
   | 'W' :: r => do
     let (kids, r) ← parseNodes false r []
     parseNodes top r (.comp kids :: acc)
+  | 'M' :: r => do
+    let (c, r) ← hexField r
+    parseNodes top r (.comment c :: acc)
+  | 'Y' :: r => parseNodes top r (.doctype :: acc)
   | 'E' :: r => do
     let (tag, r) ← untilSemi r
     if tag.isEmpty || !tag.all nameChar then none
@@ -105,11 +109,12 @@ def decodeTmpl (w : String) : Option (List Tmpl) :=
   | some (ns, []) => some ns
   | _ => none
 
-/-! SVG elements are foreign content (outside `parse`'s subset); leptos emits neither `/>` nor CDATA, so
+/-! SVG and MathML elements are foreign content (outside `parse`'s subset); leptos emits neither `/>` nor CDATA, so
 they tokenise like unknown HTML elements: the oracle parses them as custom elements `x-<tag>`. -/
 
 def svgFamily : List Str :=
-  [['s','v','g'], ['g'], ['c','i','r','c','l','e'], ['r','e','c','t'], ['p','a','t','h']]
+  [['s','v','g'], ['g'], ['c','i','r','c','l','e'], ['r','e','c','t'], ['p','a','t','h'],
+   ['m','a','t','h'], ['m','r','o','w'], ['m','i'], ['m','o'], ['m','n']]
 
 def renTag (t : Str) : Str := if svgFamily.contains t then 'x' :: '-' :: t else t
 
@@ -137,7 +142,10 @@ partial def renTmpl : Tmpl → Tmpl
   | .comp kids => .comp (kids.map renTmpl)
   | t => t
 
-def parseNorm (html : Str) : Option (List Tree) := normalize (parse (renameSvg html))
+/-- a leading `<!DOCTYPE html>` is outside the parser subset and not part of the tree -/
+def stripDoctype (h : Str) : Str := if sDoctype.isPrefixOf h then h.drop sDoctype.length else h
+
+def parseNorm (html : Str) : Option (List Tree) := normalize (parse (renameSvg (stripDoctype html)))
 
 def className : Option Nat → String
   | some 0 => "noscript-inert"
